@@ -1,4 +1,5 @@
 from enum import Enum
+from threading import RLock
 from typing import (
     Any,
     Collection,
@@ -116,6 +117,11 @@ class SerializationRecursiveChecker(
     pass
 
 
+# Recursion analysis shares recursion_cache between all checkers: concurrent first
+# uses must not interleave (a late checker could overwrite True with False)
+_recursion_lock = RLock()
+
+
 @cache  # use @cache for reset
 def recursion_cache(checker_cls: Type[RecursiveChecker]) -> Dict[RecursionKey, bool]:
     return {}
@@ -128,10 +134,11 @@ def is_recursive(
     default_conversion: DefaultConversion,
     checker_cls: Type[RecursiveChecker],
 ) -> bool:
-    cache, rec_key = recursion_cache(checker_cls), (tp, conversion)
-    if rec_key not in cache:
-        checker_cls(default_conversion).visit_with_conv(tp, conversion)
-    return cache[rec_key]
+    with _recursion_lock:
+        cache, rec_key = recursion_cache(checker_cls), (tp, conversion)
+        if rec_key not in cache:
+            checker_cls(default_conversion).visit_with_conv(tp, conversion)
+        return cache[rec_key]
 
 
 class RecursiveConversionsVisitor(ConversionsVisitor[Conv, Result]):
